@@ -163,7 +163,7 @@ Definition clen_body (tree : htree) (maxSyms : N) (s : clst) : prog (clst + list
     let acc := if 0 <? cl then rep_codes (N.to_nat rep) (cl_sym s) cl (cl_acc s) else cl_acc s in
     let sym' := cl_sym s + rep in
     assert_p (sym' <=? maxSyms) ECorrupted ;;;
-    Ret (inl (mkClst sym' (cl_last s) acc)).
+    Ret (inl (mkClst sym' cl acc)).
 
 Definition opt_tree (o : option htree) : prog htree :=
   match o with Some t => Ret t | None => Throw ECorrupted end.
